@@ -60,32 +60,45 @@ def compare(case: dict, image: bytes, lines: List[str], files: Dict[str, bytes],
     want_dirs = {d for d, e in exp_dirs.items() if e["samples"]}
     if set(by_dir) != want_dirs:
         problems.append(f"directories {sorted(by_dir)} != expected {sorted(want_dirs)}")
+    import re as _re
     for d in want_dirs & set(by_dir):
         e = exp_dirs[d]
-        want = {}
-        for s in e["samples"]:
-            want[rw.read_extents(image, case, s["extents"], s["reversed"])] = s
-        got_payloads = set()
+        # expected references grouped by sample name; files grouped by the name they carry ("X.wav", "X (2).wav" -> X).  Two
+        # samples may lie in ONE cluster chain behind the same offset and so hold the same bytes: the name tells them apart.
+        want: Dict[str, list] = {}
+        for s_ in e["samples"]:
+            want.setdefault(s_["name"], []).append((rw.read_extents(image, case, s_["extents"], s_["reversed"]), s_["rate"], s_["sample"]))
+        all_payloads = {p_ for v in want.values() for p_, _, _ in v}
+        got: Dict[str, list] = {}
         for fname, b in by_dir[d].items():
             r = riff.parse(b)
             if r["problems"] or not r["fmt"] or r["data_off"] < 0:
                 problems.append(f"{d}/{fname}: unreadable WAV")
                 continue
             payload = riff.pcm(b)
-            got_payloads.add(payload)
-            if payload not in want:
-                problems.append(f"{d}/{fname}: PCM ({len(payload)} bytes) is not the window of any sample this performance references")
-                continue
-            s = want[payload]
             if r["fmt"]["channels"] != 1:
                 problems.append(f"{d}/{fname}: {r['fmt']['channels']} channels")
-            if r["fmt"]["rate"] != s["rate"]:
-                problems.append(f"{d}/{fname}: rate {r['fmt']['rate']} != {s['rate']}")
-        for payload, s in want.items():
-            if payload not in got_payloads:
-                problems.append(f"{d}: sample {s['name']} (#{s['sample']}) missing or altered")
-            if f"{s['name']}.wav" not in by_dir[d]:
-                problems.append(f"{d}: no file named {s['name']}.wav")
+            if payload not in all_payloads:
+                problems.append(f"{d}/{fname}: PCM ({len(payload)} bytes) is not the window of any sample this performance references")
+                continue
+            base = _re.sub(r" \(\d+\)$", "", fname[:-4]) if fname.endswith(".wav") else fname
+            got.setdefault(base if base in want else fname[:-4], []).append((payload, r["fmt"]["rate"], fname))
+        for name, refs in want.items():
+            files_ = got.get(name, [])
+            if not files_:
+                problems.append(f"{d}: no file named {name}.wav (sample #{refs[0][2]} missing)")
+                continue
+            wp = sorted((p_, rate) for p_, rate, _ in refs)
+            gp = sorted((p_, rate) for p_, rate, _ in files_)
+            if {x for x in wp} != {x for x in gp}:
+                w_r, g_r = sorted({r_ for _, r_ in wp}), sorted({r_ for _, r_ in gp})
+                if {p_ for p_, _ in wp} != {p_ for p_, _ in gp}:
+                    problems.append(f"{d}: sample {name} (#{refs[0][2]}) missing or altered: the file(s) {[f for _, _, f in files_]} do not hold its window")
+                else:
+                    problems.append(f"{d}/{files_[0][2]}: rate {g_r} != {w_r}")
+        for name in got:
+            if name not in want:
+                problems.append(f"{d}: file(s) {[f for _, _, f in got[name]]} carry the name of no sample this performance references")
     return problems
 
 
